@@ -850,3 +850,229 @@ func soleDelegate(fn *ssa.Function) (*ssa.Function, []ssa.Value) {
 	}
 	return sc, call.Call.Args
 }
+
+// T-num2bin (C05): OP_NUM2BIN  a n -> the number a re-encoded in exactly n bytes. Read from the handler: the
+// minimal encoding B of a (makeScriptNumber(a, len(a), false, era).Bytes()); n < len(B) is ErrNumberTooSmall, n
+// above the element size limit ErrNumberTooBig, n == len(B) pushes B itself; otherwise the sign bit is taken off
+// the last byte of B (mask 0x80 kept aside, mask 0x7f left in place), zero bytes are appended while n > len+1,
+// and the byte holding only the sign bit comes last. Each of these is a fact of the SSA form with its constants.
+func ruleTNum2Bin(c *Ctx) {
+	fn := c.P.Func("bscript/interpreter", "", "opcodeNum2bin")
+	if fn == nil {
+		c.Undecided("T-num2bin", "OP_NUM2BIN", token.NoPos, "handler not found")
+		return
+	}
+	s := newSpliceFn(fn)
+	eSmall := pkgConst(c, "bscript/interpreter/errs", "ErrNumberTooSmall")
+	eBig := pkgConst(c, "bscript/interpreter/errs", "ErrNumberTooBig")
+	var problems []string
+	if s.signature() != "int,bytes" {
+		problems = append(problems, "operands popped: "+s.signature()+" (the size, then the number)")
+	}
+	// B
+	var B *ssa.Call
+	for _, b := range fn.Blocks {
+		for _, ins := range b.Instrs {
+			call, ok := ins.(*ssa.Call)
+			if !ok || call.Call.StaticCallee() == nil || call.Call.StaticCallee().Name() != "Bytes" || call.Call.StaticCallee().Signature.Recv() == nil {
+				continue
+			}
+			ex, ok := call.Call.Args[0].(*ssa.Extract)
+			if !ok || ex.Index != 0 {
+				continue
+			}
+			mk, ok := ex.Tuple.(*ssa.Call)
+			if !ok || mk.Call.StaticCallee() == nil || mk.Call.StaticCallee().Name() != "makeScriptNumber" || len(mk.Call.Args) != 4 {
+				continue
+			}
+			okLen := false
+			if ln, isCall := mk.Call.Args[1].(*ssa.Call); isCall && isLenCall(ln) && s.operand(ln.Call.Args[0]) == 2 {
+				okLen = true
+			}
+			minimal, isK := mk.Call.Args[2].(*ssa.Const)
+			if s.operand(mk.Call.Args[0]) == 2 && okLen && isK && minimal.Value != nil && !constant.BoolVal(minimal.Value) {
+				B = call
+			}
+		}
+	}
+	if B == nil {
+		c.Fail("T-num2bin", "OP_NUM2BIN", fn.Pos(), "OP_NUM2BIN: the number is not re-encoded as makeScriptNumber(a, len(a), false, era).Bytes()")
+		return
+	}
+	isLenB := func(v ssa.Value) bool {
+		for {
+			cv, ok := v.(*ssa.Convert)
+			if !ok {
+				break
+			}
+			v = cv.X
+		}
+		call, ok := v.(*ssa.Call)
+		return ok && isLenCall(call) && call.Call.Args[0] == ssa.Value(B)
+	}
+	isLastOfB := func(addr ssa.Value) bool {
+		ia, ok := addr.(*ssa.IndexAddr)
+		if !ok || ia.X != ssa.Value(B) {
+			return false
+		}
+		bo, ok := ia.Index.(*ssa.BinOp)
+		if !ok || bo.Op != token.SUB || !isLenB(bo.X) {
+			return false
+		}
+		k, isK := constInt(bo.Y)
+		return isK && k.Int64() == 1
+	}
+	numCall := func(v ssa.Value, name string) (*ssa.Call, bool) {
+		call, ok := v.(*ssa.Call)
+		if !ok || call.Call.StaticCallee() == nil || call.Call.StaticCallee().Name() != name || len(call.Call.Args) != 2 || s.operand(call.Call.Args[0]) != 1 {
+			return nil, false
+		}
+		return call, true
+	}
+	errOf := func(b *ssa.BasicBlock) int64 {
+		r, ok := b.Instrs[len(b.Instrs)-1].(*ssa.Return)
+		if !ok {
+			return -1
+		}
+		rt := newTermEnv().Term(r.Results[0])
+		if rt.K == "call" && strings.Contains(rt.Name, "errs.NewError") && len(rt.Args) > 0 && rt.Args[0].K == "const" && rt.Args[0].C != nil {
+			v, _ := constant.Int64Val(constant.ToInt(rt.Args[0].C))
+			return v
+		}
+		return -1
+	}
+	okSmall, okEqual, okBig, okSign, okClear, okPad, okFinal := false, false, false, false, false, false, false
+	var signVal ssa.Value
+	for _, b := range fn.Blocks {
+		if iff, ok := b.Instrs[len(b.Instrs)-1].(*ssa.If); ok {
+			if call, ok := numCall(iff.Cond, "LessThanInt"); ok && isLenB(call.Call.Args[1]) && errOf(b.Succs[0]) == eSmall {
+				okSmall = true
+			}
+			if call, ok := numCall(iff.Cond, "GreaterThanInt"); ok && errOf(b.Succs[0]) == eBig {
+				if a := atomName(newTermEnv().Term(call.Call.Args[1])); strings.Contains(a, "MaxScriptElementSize") {
+					okBig = true
+				}
+			}
+			if call, ok := numCall(iff.Cond, "EqualInt"); ok && isLenB(call.Call.Args[1]) {
+				for _, ins := range b.Succs[0].Instrs {
+					if push, ok := ins.(*ssa.Call); ok && push.Call.StaticCallee() != nil && push.Call.StaticCallee().Name() == "PushByteArray" && push.Call.Args[1] == ssa.Value(B) {
+						okEqual = true
+					}
+				}
+			}
+			// the padding loop: while n > len(X)+1 { X = append(X, 0) }
+			if call, ok := numCall(iff.Cond, "GreaterThanInt"); ok && isLoopHeader(b) {
+				arg := call.Call.Args[1]
+				for {
+					cv, isCv := arg.(*ssa.Convert)
+					if !isCv {
+						break
+					}
+					arg = cv.X
+				}
+				if bo, isBo := arg.(*ssa.BinOp); isBo && bo.Op == token.ADD {
+					k, isK := constInt(bo.Y)
+					ln, isLn := bo.X.(*ssa.Call)
+					if isK && k.Int64() == 1 && isLn && isLenCall(ln) {
+						if ph, isPh := ln.Call.Args[0].(*ssa.Phi); isPh && ph.Block() == b {
+							// body appends one zero byte to the phi; exit appends the sign byte and pushes
+							bodyOK, exitOK := false, false
+							for _, ins := range b.Succs[0].Instrs {
+								if ap, ok := ins.(*ssa.Call); ok {
+									if parts, ok := appendedBytes(ap, ph); ok && len(parts) == 1 && isZeroConst(parts[0]) {
+										bodyOK = true
+									}
+								}
+							}
+							var last *ssa.Call
+							for _, ins := range b.Succs[1].Instrs {
+								if ap, ok := ins.(*ssa.Call); ok {
+									if parts, ok := appendedBytes(ap, ph); ok && len(parts) == 1 {
+										if sp, isPh := parts[0].(*ssa.Phi); isPh && sp.Block() == b {
+											signVal = sp
+											last = ap
+										}
+									}
+									if ap.Call.StaticCallee() != nil && ap.Call.StaticCallee().Name() == "PushByteArray" && last != nil && ap.Call.Args[1] == ssa.Value(last) {
+										exitOK = true
+									}
+								}
+							}
+							okPad, okFinal = bodyOK, exitOK
+						}
+					}
+				}
+			}
+		}
+		for _, ins := range b.Instrs {
+			if st, ok := ins.(*ssa.Store); ok && isLastOfB(st.Addr) {
+				if bo, ok := st.Val.(*ssa.BinOp); ok && bo.Op == token.AND {
+					if ld, ok := bo.X.(*ssa.UnOp); ok && ld.Op == token.MUL && isLastOfB(ld.X) {
+						if k, isK := constInt(bo.Y); isK && k.Int64() == 0x7f {
+							okClear = true
+						}
+					}
+				}
+			}
+		}
+	}
+	// the sign byte: phi(0, B[len-1] & 0x80) carried round the loop unchanged
+	if sp, ok := signVal.(*ssa.Phi); ok {
+		zero, masked := false, false
+		for _, e := range sp.Edges {
+			switch x := e.(type) {
+			case *ssa.Const:
+				zero = zero || isZeroConst(x)
+			case *ssa.BinOp:
+				if ld, ok := x.X.(*ssa.UnOp); ok && x.Op == token.AND && ld.Op == token.MUL && isLastOfB(ld.X) {
+					if k, isK := constInt(x.Y); isK && k.Int64() == 0x80 {
+						masked = true
+					}
+				}
+			case *ssa.Phi:
+				if x != sp {
+					zero = false
+				}
+			}
+		}
+		okSign = zero && masked
+	}
+	for _, f := range []struct {
+		ok   bool
+		what string
+	}{{okSmall, "n < len(B) is ErrNumberTooSmall"}, {okBig, "n above the element size limit is ErrNumberTooBig"}, {okEqual, "n == len(B) pushes B itself"}, {okSign, "the sign byte is B's last byte masked with 0x80 (0 for an empty B)"},
+		{okClear, "the sign bit is taken off B's last byte with mask 0x7f"}, {okPad, "zero bytes are appended while n > len + 1"}, {okFinal, "the sign byte is appended last and the result pushed"}} {
+		if !f.ok {
+			problems = append(problems, "not found: "+f.what)
+		}
+	}
+	sort.Strings(problems)
+	c.Check(len(problems) == 0, "T-num2bin", "OP_NUM2BIN", fn.Pos(), "minimal encoding, size guards, sign bit moved to the last of n bytes, zero padding", "OP_NUM2BIN: "+strings.Join(problems, "; "))
+}
+
+// appendedBytes: call is append(base, x1, x2, ...) with the elements given one by one: the elements.
+func appendedBytes(call *ssa.Call, base ssa.Value) ([]ssa.Value, bool) {
+	bi, ok := call.Call.Value.(*ssa.Builtin)
+	if !ok || bi.Name() != "append" || len(call.Call.Args) != 2 || call.Call.Args[0] != base {
+		return nil, false
+	}
+	sl, ok := call.Call.Args[1].(*ssa.Slice)
+	if !ok {
+		return nil, false
+	}
+	al, ok := sl.X.(*ssa.Alloc)
+	if !ok || al.Referrers() == nil {
+		return nil, false
+	}
+	var out []ssa.Value
+	for _, r := range *al.Referrers() {
+		if ia, ok := r.(*ssa.IndexAddr); ok && ia.Referrers() != nil {
+			for _, r2 := range *ia.Referrers() {
+				if st, ok := r2.(*ssa.Store); ok {
+					out = append(out, st.Val)
+				}
+			}
+		}
+	}
+	return out, len(out) > 0
+}
